@@ -10,6 +10,15 @@ Clocks. The cache reads its own coarse clock `timestamp` (refreshed every
 (`utils.Timestamp()` for internal/memory, refreshed every second). Both are components of the
 global state (`ts`, `uts`) advanced by separate tick events, so every theorem holds for any skew.
 
+Storage faults. An injected `fiber.Storage` may fail: every request carries, per critical section, the
+outcomes of the storage calls it makes there, in order (`Req.f1`, `Req.f2`; internal/memory cannot fail).
+`Get` of the entry may fail or deliver a value that does not decode (→ no entry), `Get` of the body may
+fail (→ not served from the cache), `Set` and `Delete` may fail and the code ignores that (manager.go,
+"TODO: Handle error here"): the entry and its separately stored body can then part. The model keeps the
+bodies of an injected storage in their own map (`Shared.bodies`; for internal/memory a ghost copy kept in
+step) and records as ghost state the keys whose `Set`/`Delete` failed and has not been made good since
+(`Shared.dirty`).
+
 Core Lean only (linked into the driver).
 -/
 namespace C14
@@ -68,6 +77,23 @@ def Config.effMethods (c : Config) : List Bytes :=
 /-- cache.go New: `if int(cfg.Expiration.Seconds()) < 0` → the middleware is a plain `c.Next()` -/
 def Config.disabled (c : Config) : Bool := c.expiration < 0
 
+/-- outcome of one call of the injected storage -/
+inductive Fault where
+  | ok
+  | err        -- the call returns an error
+  | garbled    -- `Get` of an entry delivers a value `UnmarshalMsg` rejects (elsewhere: no fault)
+deriving DecidableEq, Repr, Inhabited
+
+def faultAt (fs : List Fault) (i : Nat) : Fault := fs.getD i .ok
+/-- `Set`, `Delete`, `Get` of a body: the call failed -/
+def Fault.fails : Fault → Bool
+  | .err => true
+  | _ => false
+/-- `manager.get`: `Storage.Get` failed, or `UnmarshalMsg` did (repaired: the item is blank then) -/
+def Fault.noEntry : Fault → Bool
+  | .ok => false
+  | _ => true
+
 structure Req where
   method : Bytes
   keyMat : Bytes             -- what cfg.KeyGenerator(c) returns for this request
@@ -78,6 +104,8 @@ structure Req where
   resp : Resp                -- the origin handler's response to this request
   err : Bool := false        -- the origin handler returns an error: `c.Next()` ≠ nil, the middleware returns it
                              -- unchanged and fiber's ErrorHandler writes `resp`
+  f1 : List Fault := []      -- outcomes of the storage calls of the first critical section, in call order
+  f2 : List Fault := []      -- … of the second critical section
 deriving DecidableEq, Repr, Inhabited
 
 inductive XCache | absent | hit | miss | unreachable
@@ -141,21 +169,56 @@ def Store.set (s : Store) (k : Key) (sl : Slot) : Store := (k, sl) :: s.erase k
 def Store.held (s : Store) (uts : Nat) : Nat :=
   ((s.filter fun p => !p.2.expired uts).map fun p => p.2.item.body.length).sum
 
+/-- the separately stored body of an injected storage (`key + "_body"`) with the storage's own expiry -/
+structure BSlot where
+  body : Bytes
+  sexp : Nat
+deriving DecidableEq, Repr, Inhabited
+
+abbrev BStore := List (Key × BSlot)
+
+def BStore.lookup : BStore → Key → Option BSlot
+  | [], _ => none
+  | (k', sl) :: t, k => if k' = k then some sl else BStore.lookup t k
+def BStore.erase (s : BStore) (k : Key) : BStore := s.filter (·.1 != k)
+def BStore.set (s : BStore) (k : Key) (sl : BSlot) : BStore := (k, sl) :: s.erase k
+def BSlot.expired (sl : BSlot) (uts : Nat) : Bool := sl.sexp != 0 && sl.sexp ≤ uts
+/-- `Storage.Get(key + "_body")`: `nil` when absent or expired -/
+def BStore.get (s : BStore) (k : Key) (uts : Nat) : Bytes :=
+  match s.lookup k with
+  | some sl => if sl.expired uts then [] else sl.body
+  | none => []
+/-- sum of the sizes of the bodies the storage holds (what the harness measures in the injected storage) -/
+def BStore.held (s : BStore) (uts : Nat) : Nat :=
+  ((s.filter fun p => !p.2.expired uts).map fun p => p.2.body.length).sum
+
 /-- what `manager.get` yields for a key the external storage does not have: a blank pooled item -/
 def blankItem : Item := ⟨0, [], [], [], [], 0, 0⟩
 
 /-! ### the state protected by `mux`, and the two critical sections -/
 
 structure Shared where
-  store : Store
+  store : Store              -- the entries (`manager.set(key, e)`); `item.body` is what the entry was built with
   heap : Heap
   stored : Nat               -- storedBytes (uint)
+  bodies : BStore            -- injected storage: the `key_body` values; internal/memory: ghost copy, kept in step
+  dirty : List Key           -- ghost: keys with a failed `Set`/`Delete` not made good by a later complete one
 deriving Repr, Inhabited
 
-def Shared.empty : Shared := ⟨[], Heap.empty, 0⟩
+def Shared.empty : Shared := { store := [], heap := Heap.empty, stored := 0, bodies := [], dirty := [] }
 
-/-- `deleteKey(key)` (both the item and its `_body` twin) -/
-def Shared.deleteKey (sh : Shared) (k : Key) : Shared := { sh with store := sh.store.erase k }
+def markDirty (d : List Key) (k : Key) (failed : Bool) : List Key :=
+  if failed then k :: d.filter (· != k) else d.filter (· != k)
+
+/-- `deleteKey(dkey)`: `manager.del(dkey)` and, with an injected storage, `manager.del(dkey + "_body")`;
+    `d1`, `d2` are the outcomes of the two `Storage.Delete` calls – an error is ignored by the code and
+    the value stays (internal/memory cannot fail) -/
+def Shared.deleteKey (cfg : Config) (sh : Shared) (k : Key) (d1 d2 : Fault) : Shared :=
+  let x1 := cfg.ext && d1.fails
+  let x2 := cfg.ext && d2.fails
+  { sh with store := if x1 then sh.store else sh.store.erase k,
+            bodies := if x2 then sh.bodies else sh.bodies.erase k,
+            dirty := markDirty sh.dirty k (x1 || x2) }
 
 inductive Sec1 where
   | panic                          -- a heap index expression panicked (mutex stays locked)
@@ -172,40 +235,59 @@ def replay (cfg : Config) (e : Item) (ts : Nat) : Out :=
     headers := hs }
 
 /-- `e := manager.get(key)`: the stored item, `nil` when internal/memory has none (or it expired
-    there); an external storage yields a blank pooled item instead of `nil` -/
-def lookup1 (cfg : Config) (sh : Shared) (uts : Nat) (key : Key) : Option Item :=
-  match sh.store.get key uts with
-  | some it => some it
-  | none => if cfg.ext then some blankItem else none
+    there); an external storage yields a blank pooled item instead of `nil` – also when `Storage.Get`
+    fails or the value does not decode (`g`: outcome of that call) -/
+def lookup1 (cfg : Config) (sh : Shared) (uts : Nat) (key : Key) (g : Fault) : Option Item :=
+  if cfg.ext && g.noEntry then some blankItem
+  else match sh.store.get key uts with
+    | some it => some it
+    | none => if cfg.ext then some blankItem else none
 
-/-- `if cfg.CacheInvalidator != nil && cfg.CacheInvalidator(c) { e.exp = ts - 1 }` -/
-def applyInv (q : Req) (ts : Nat) (e : Item) : Item := if q.inv then { e with exp := ts - 1 } else e
+/-- `if cfg.CacheInvalidator != nil && cfg.CacheInvalidator(c) { e.exp = ts - 1 }` – `ts` is a `uint64`:
+    at clock value 0 the subtraction wraps -/
+def applyInv (q : Req) (ts : Nat) (e : Item) : Item :=
+  if q.inv then { e with exp := if ts = 0 then U64 - 1 else ts - 1 } else e
 
-/-- the expiry branch: `deleteKey(key); if cfg.MaxBytes > 0 { if size, ok := heap.remove(e.heapidx, key); ok
+/-- `if size, ok := heap.removeKey(key); ok { storedBytes -= size }` (both critical sections): the
+    heap entry tracking `key`, if there is one, leaves the heap and the count -/
+def dropTracked (sh : Shared) (key : Key) : Option Shared :=
+  match sh.heap.removeKey key with
+  | none => none
+  | some (h, some size) => some { sh with heap := h, stored := usub sh.stored size }
+  | some (h, none) => some { sh with heap := h }
+
+/-- the expiry branch: `deleteKey(key); if cfg.MaxBytes > 0 { if size, ok := heap.removeKey(key); ok
     { storedBytes -= size } }` -/
-def sec1Expire (cfg : Config) (sh : Shared) (key : Key) (heapidx : Nat) : Sec1 :=
-  let sh := sh.deleteKey key
+def sec1Expire (cfg : Config) (sh : Shared) (key : Key) (d1 d2 : Fault) : Sec1 :=
+  let sh := sh.deleteKey cfg key d1 d2
   if cfg.maxBytes > 0 then
-    match sh.heap.remove heapidx key with
+    match dropTracked sh key with
     | none => .panic
-    | some (h, some size) => .pass { sh with heap := h, stored := usub sh.stored size }
-    | some (h, none) => .pass { sh with heap := h }
+    | some sh => .pass sh
   else .pass sh
 
 def itemExpired (e : Item) (ts : Nat) : Bool := e.exp != 0 && ts ≥ e.exp
 
-/-- `if e.exp != 0 && ts >= e.exp {…} else if e.exp != 0 && !hasRequestDirective(c, noCache) {…hit…}` -/
-def sec1Found (cfg : Config) (sh : Shared) (ts : Nat) (q : Req) (key : Key) (e : Item) : Sec1 :=
-  if itemExpired e ts then sec1Expire cfg sh key e.heapidx
-  else if e.exp != 0 && !hasDirective q.cc Facts.noCache then .hit (replay cfg e ts)
+/-- the body replayed on a hit: with an injected storage what `Storage.Get(key + "_body")` delivers now -/
+def hitBody (cfg : Config) (sh : Shared) (uts : Nat) (key : Key) (e : Item) : Bytes :=
+  if cfg.ext then sh.bodies.get key uts else e.body
+
+/-- `if e.exp != 0 && ts >= e.exp {…} else if e.exp != 0 && !hasRequestDirective(c, noCache) &&
+    manager.loadBody(key, e) {…hit…}`; storage calls after the entry `Get` (outcomes `f1[1]`, `f1[2]`): the two
+    `Delete`s of the expiry branch, or the body `Get` of a hit (repaired: when it fails nothing is served) -/
+def sec1Found (cfg : Config) (sh : Shared) (ts uts : Nat) (q : Req) (key : Key) (e : Item) : Sec1 :=
+  if itemExpired e ts then sec1Expire cfg sh key (faultAt q.f1 1) (faultAt q.f1 2)
+  else if e.exp != 0 && !hasDirective q.cc Facts.noCache then
+    if cfg.ext && (faultAt q.f1 1).fails then .pass sh
+    else .hit (replay cfg { e with body := hitBody cfg sh uts key e } ts)
   else .pass sh
 
 /-- cache.go handler, first critical section: `mux.Lock(); e := manager.get(key); ts := …;`
     invalidation / expiry / hit; `mux.Unlock()` -/
 def sec1 (cfg : Config) (sh : Shared) (ts uts : Nat) (q : Req) (key : Key) : Sec1 :=
-  match lookup1 cfg sh uts key with
+  match lookup1 cfg sh uts key (faultAt q.f1 0) with
   | none => .pass sh
-  | some e => sec1Found cfg sh ts q key (applyInv q ts e)
+  | some e => sec1Found cfg sh ts uts q key (applyInv q ts e)
 
 inductive Sec2 where
   | panic
@@ -214,16 +296,19 @@ inductive Sec2 where
 deriving Repr
 
 /-- `for storedBytes+bodySize > cfg.MaxBytes { key, size := heap.removeFirst(); deleteKey(key);
-    storedBytes -= size }` (fuel: one more than the heap holds – the last iteration would panic) -/
-def evict (maxBytes bodySize : Nat) : Nat → Shared → Option Shared
-  | 0, _ => none
-  | f + 1, sh =>
-    if uadd sh.stored bodySize > maxBytes then
+    storedBytes -= size }` (fuel: one more than the heap holds – the last iteration would panic); `fs`: the
+    outcomes of the storage calls still to come in this section (two `Delete`s per round with an injected
+    storage); returns the outcomes left for the `Set`s -/
+def evict (cfg : Config) (bodySize : Nat) : Nat → List Fault → Shared → Option (Shared × List Fault)
+  | 0, _, _ => none
+  | f + 1, fs, sh =>
+    if uadd sh.stored bodySize > cfg.maxBytes then
       match sh.heap.removeFirst with
       | none => none
       | some (h, x) =>
-        evict maxBytes bodySize f { store := sh.store.erase x.key, heap := h, stored := usub sh.stored x.bytes }
-    else some sh
+        evict cfg bodySize f (if cfg.ext then fs.drop 2 else fs)
+          { (sh.deleteKey cfg x.key (faultAt fs 0) (faultAt fs 1)) with heap := h, stored := usub sh.stored x.bytes }
+    else some (sh, fs)
 
 def expSecs (cfg : Config) (q : Req) : Nat :=
   match q.expGen with
@@ -238,28 +323,42 @@ def mkItem (cfg : Config) (q : Req) (ts : Nat) (heapidx : Nat) : Item :=
 def storageExp (cfg : Config) (q : Req) (uts : Nat) : Nat :=
   if (cfg.stTTL || !cfg.ext) && expSecs cfg q > 0 then uts + expSecs cfg q else 0
 
+/-- `manager.setRaw(key+"_body", e.body, expiration); e.body = nil; manager.set(key, e, expiration)` (injected
+    storage; outcomes `s1`, `s2` of the two `Storage.Set` calls, errors are ignored by the code) resp.
+    `manager.set(key, e, expiration)` (internal/memory) -/
+def Shared.setKey (cfg : Config) (sh : Shared) (key : Key) (it : Item) (sexp : Nat) (s1 s2 : Fault) : Shared :=
+  let x1 := cfg.ext && s1.fails
+  let x2 := cfg.ext && s2.fails
+  { sh with store := if x2 then sh.store else sh.store.set key ⟨it, sexp⟩,
+            bodies := if x1 then sh.bodies else sh.bodies.set key ⟨it.body, sexp⟩,
+            dirty := markDirty sh.dirty key (x1 || x2) }
+
 /-- the part of the second section after the eviction loop: build the item, `heap.put`,
-    `storedBytes += bodySize`, `manager.set` -/
-def sec2Store (cfg : Config) (sh : Shared) (ts uts : Nat) (q : Req) (key : Key) : Sec2 :=
+    `storedBytes += bodySize`, `manager.setRaw` / `manager.set` -/
+def sec2Store (cfg : Config) (sh : Shared) (ts uts : Nat) (q : Req) (key : Key) (fs : List Fault) : Sec2 :=
   if cfg.maxBytes > 0 then
     match sh.heap.put key (ts + expSecs cfg q) q.resp.body.length with
     | none => .panic
     | some (h, idx) =>
-      .stored { store := sh.store.set key ⟨mkItem cfg q ts idx, storageExp cfg q uts⟩,
-                heap := h, stored := uadd sh.stored q.resp.body.length }
+      .stored ({ sh with heap := h, stored := uadd sh.stored q.resp.body.length }.setKey cfg key
+        (mkItem cfg q ts idx) (storageExp cfg q uts) (faultAt fs 0) (faultAt fs 1))
   else
-    .stored { sh with store := sh.store.set key ⟨mkItem cfg q ts 0, storageExp cfg q uts⟩ }
+    .stored (sh.setKey cfg key (mkItem cfg q ts 0) (storageExp cfg q uts) (faultAt fs 0) (faultAt fs 1))
 
 /-- cache.go handler, second critical section (after `c.Next()` returned a cacheable status):
-    `cfg.Next`, size check, eviction loop, then `sec2Store` -/
+    `cfg.Next`, size check, `heap.removeKey(key)` (the response replaces whatever is tracked for the
+    key), eviction loop, then `sec2Store` -/
 def sec2 (cfg : Config) (sh : Shared) (ts uts : Nat) (q : Req) (key : Key) : Sec2 :=
   if q.skip then .unreachable
   else if cfg.maxBytes > 0 && q.resp.body.length > cfg.maxBytes then .unreachable
   else if cfg.maxBytes > 0 then
-    match evict cfg.maxBytes q.resp.body.length (sh.heap.live.length + 1) sh with
+    match dropTracked sh key with
     | none => .panic
-    | some sh => sec2Store cfg sh ts uts q key
-  else sec2Store cfg sh ts uts q key
+    | some sh0 =>
+      match evict cfg q.resp.body.length (sh0.heap.live.length + 1) q.f2 sh0 with
+      | none => .panic
+      | some (sh, fs) => sec2Store cfg sh ts uts q key fs
+  else sec2Store cfg sh ts uts q key q.f2
 
 /-! ### threads and the interleaving semantics -/
 
@@ -282,6 +381,8 @@ structure Thread where
   ts : Nat := 0              -- `ts` read in the first section
   out : Option Out := none
   ran : Bool := false        -- the origin handler was invoked
+  taint : Bool := false      -- ghost: when the thread ran its first section, a `Set`/`Delete` of its key had
+                             -- failed and not been made good
 deriving Repr, Inhabited
 
 structure G where
@@ -316,10 +417,11 @@ def step (cfg : Config) (g : G) (t : Nat) : Option G :=
       | some _ => none
       | none => some ({ g with mux := some t }.setThread t { th with pc := .sec1 })
     | .sec1 =>
+      let taint := g.sh.dirty.contains (mkKey q)
       match sec1 cfg g.sh g.ts g.uts q (mkKey q) with
-      | .panic => some (g.setThread t { th with pc := .panicked, ts := g.ts })
-      | .hit o => some ({ g with mux := none }.setThread t { th with pc := .done, ts := g.ts, out := some o })
-      | .pass sh => some ({ g with mux := none, sh := sh }.setThread t { th with pc := .next, ts := g.ts })
+      | .panic => some (g.setThread t { th with pc := .panicked, ts := g.ts, taint := taint })
+      | .hit o => some ({ g with mux := none }.setThread t { th with pc := .done, ts := g.ts, out := some o, taint := taint })
+      | .pass sh => some ({ g with mux := none, sh := sh }.setThread t { th with pc := .next, ts := g.ts, taint := taint })
     | .next =>
       -- `if err := c.Next(); err != nil { return err }`: nothing is stored, no cache-status header
       if q.err then some (g.setThread t { th with pc := .done, ran := true, out := some (passThrough .absent q.resp) })
